@@ -182,7 +182,7 @@ def _work(args):
 
 
 def run(chk):
-    n = 64 if chk.tier == 'quick' else 1500
+    n = 128 if chk.tier == 'quick' else 1500
     chk.rule = ('scenes from families split/chain/synth/bundle/degenerate/multi/crop; per scene the closed graph of states '
                 'reachable by the 9 call forms (find_slices/groups/layers, metarize x3, metar_msg x3) from a fresh chunk, states '
                 'merged by digest: covers every call sequence of every length; plus 6 directly executed random histories per '
